@@ -174,7 +174,7 @@ def run(ck):
                     data = np.vstack([info["x"], info["y"]]) if info["cross"] else info["x"]
                     m = (f >= band[0]) & (f <= band[1])
                     try:
-                        rb = SpectrumAnalyzer(data, info["fs"], band=band, **info["kw"]).compute()
+                        rb = SpectrumAnalyzer(data, info["fs"], band=band, **attrs.resolve_kw(info["kw"])).compute()
                     except ValueError as e:
                         if m.any():
                             ck.violation("band %r contains %d bins of the unrestricted plan but the band analysis raised: %s" % (band, int(m.sum()), str(e)[:80]), dict(inp, band=band), tag="band:raise")
